@@ -159,6 +159,7 @@ var seedExpectations = []seedExpect{
 	{"C17-g", "C17", "index.mixedbasis", "writeEPInputStruct:fakeMembers.index"},
 	// eighth batch (-h), caught on arrival
 	{"C02-h", "C02", "layout.seethrough", "emitStructMemberDecorations"},
+	{"C07-h", "C07", "layout.colstride", "computeSubAccess:alignmentFromVectorSize"},
 	{"C17-h", "C17", "epselect.agree", "scanTextureSamplerPairs:filter"},
 	{"C18-h", "C18", "maporder", "emitHelperFunctions:range(calledFunctions)"},
 	// hand-made positive controls (controls/)
